@@ -78,17 +78,6 @@ class Ctx:
                 ', which the assumed conditions do not determine', loc,
                 detail))
             ok = None
-        elif pend is not None and (pend.f or pend.c) and not pend.used \
-                and not os.environ.get('VERIF_NO_UNDECIDED'):
-            # none of the assumed conditions occurs in the function any
-            # more: the fact was not evaluated at all
-            self.undecided.append(Finding(
-                rule, construct, message + ' -- UNDECIDED: none of the '
-                'assumed conditions ' + repr(sorted(list(pend.f) +
-                                                    list(pend.c))[:4]) +
-                ' occurs in the function any more, so the path fact was '
-                'not evaluated', loc, detail))
-            ok = None
         elif self._delegated(loc):
             self.undecided.append(Finding(
                 rule, construct, message + ' -- UNDECIDED: the function '
